@@ -22,6 +22,7 @@ Definition post (w : waker) (fs' : fstate) (H' : heap) : Prop :=
   | LJoin u _ => In w (tf_joinw (gtf u H')) /\ u < length (tfl H')
   | LBoth a b _ _ _ | LRace a b _ _ => sub_ok w a H' /\ sub_ok w b H'
   | LYield _ _ => woken_of w H'
+  | LLeg _ _ _ ch _ _ => registered ch w H'
   | LHost _ _ _ _ => True
   end.
 
@@ -110,7 +111,7 @@ Proof.
   - apply getd_updd_same.
   - rewrite getd_updd_other by exact Hne. exact E.
 Qed.
-Lemma Rwoken_add_gen H : Rwoken H (mkH (chans H) (tfl H) (cmds H) (woken H ++ [false]) (xready H) (aborted H) (log H)).
+Lemma Rwoken_add_gen H : Rwoken H (mkH (chans H) (tfl H) (cmds H) (woken H ++ [false]) (xready H) (aborted H) (log H) (hout H)).
 Proof.
   intros g E. simpl. unfold getd in *. destruct (Nat.lt_ge_cases g (length (woken H))) as [L|L].
   - rewrite app_nth1 by exact L. exact E.
@@ -127,6 +128,7 @@ Definition frame_woken := frame_all Rwoken Rwoken_refl Rwoken_trans
   (fun t H => Rwoken_same H _ eq_refl)
   Rwoken_add_gen
   (fun n H => Rwoken_same H (add_aborted n H) eq_refl)
+  (fun e H => Rwoken_same H (push_hout e H) eq_refl)
   (fun c H => Rwoken_same H _ eq_refl).
 Lemma wake_sets_woken f c s g H : getd false g (woken (wake (S f) (WCmd c s g) H)) = true.
 Proof.
@@ -149,7 +151,7 @@ Definition spec_post (F : rtfuns) : Prop :=
 Lemma post_step : forall F, spec_post F -> spec_post (step_funs F).
 Proof.
   intros F IH c w fs H fs' H' E. cbn [step_funs rpoll] in E. unfold poll_body in E.
-  destruct (f_leaf fs) as [t|sent dead tg v ch x k| |u k|cid meff mev k|n k|qa qb x1 x2 k|qa qb x k] eqn:EL.
+  destruct (f_leaf fs) as [t|sent dead tg v ch x k| |u k|cid meff mev k|n k|lsent ltg lv lch lx k|qa qb x1 x2 k|qa qb x k] eqn:EL.
   - (* LRun *)
     destruct t.
     + destruct (f_stack fs); [discriminate | apply IH in E; exact E].
@@ -161,6 +163,7 @@ Proof.
     + apply IH in E; exact E.
     + apply IH in E; exact E.
     + apply IH in E; exact E.
+    + destruct (new_chan H) as [ch H1]. apply IH in E; exact E.
     + apply IH in E; exact E.
     + destruct (new_chan H) as [ch1 H1]. destruct (new_chan H1) as [ch2 H2]. apply IH in E; exact E.
     + destruct (new_chan H) as [ch1 H1]. destruct (new_chan H1) as [ch2 H2]. apply IH in E; exact E.
@@ -191,6 +194,9 @@ Proof.
     destruct n; [apply IH in E; exact E|].
     inversion E; subst. unfold post; simpl. unfold woken_of. destruct w as [c0 s0 g0|q]; [|exact I].
     unfold WF. apply wake_sets_woken.
+  - (* LLeg *)
+    match type of E with context[ch_buf (gch lch ?Hx)] => destruct (ch_buf (gch lch Hx)) end; [|apply IH in E; exact E].
+    inversion E; subst. unfold post; simpl. apply registered_chan_reg.
   - (* LBoth *)
     destruct (sub_poll c w qa H) as [a' H1] eqn:E1. destruct (sub_poll c w qb H1) as [b' H2] eqn:E2.
     pose proof (sub_poll_ok _ _ _ _ _ _ E1) as Oa. pose proof (sub_poll_keeps _ _ _ _ _ _ a' E2 Oa) as Oa2.
@@ -237,7 +243,7 @@ Definition evictable (fs' : fstate) : Prop :=
   | LReq _ dead _ _ _ _ _ => dead = true
   | LBoth a b _ _ _ | LRace a b _ _ => closed_sub a /\ closed_sub b
   | LHost _ _ _ _ => True
-  | LRun _ | LStr | LJoin _ _ | LYield _ _ => False
+  | LRun _ | LStr | LJoin _ _ | LYield _ _ | LLeg _ _ _ _ _ _ => False
   end.
 
 Lemma holds_ucmd_of_chan g c f H ch w : registered ch w H -> wk_gen w g = true -> holds g (ucmd c f H) = true.
@@ -283,7 +289,7 @@ Proof.
     + apply nth_error_None in EN. pose proof (lt_length_updd (Vac 0) slot (fun _ => Occ (mkT (t_uid t) fs')) (c_ent (gcmd cid H2))). lia.
   - unfold evictable. unfold post in P. simpl.
     assert (Gw : wk_gen w g = true) by (unfold w; simpl; apply Nat.eqb_refl).
-    destruct (f_leaf fs') as [t0|sent dead tg v ch x k| |u k|cid' meff mev k|n k|qa qb x1 x2 k|qa qb x k].
+    destruct (f_leaf fs') as [t0|sent dead tg v ch x k| |u k|cid' meff mev k|n k|lsent ltg lv lch lx k|qa qb x1 x2 k|qa qb x k].
     + exact P.
     + destruct dead; [reflexivity|]. exfalso.
       rewrite (holds_ucmd_of_chan g cid _ H2 ch w (P eq_refl) Gw) in EHo'. discriminate.
@@ -293,6 +299,7 @@ Proof.
       rewrite (holds_ucmd_of_joinw g cid _ H2 u w I L Gw) in EHo'. discriminate.
     + exact I.
     + unfold woken_of, w in P. assert (EW' : getd false g (woken H2) = false) by exact EW. rewrite P in EW'. discriminate.
+    + exfalso. rewrite (holds_ucmd_of_chan g cid _ H2 lch w P Gw) in EHo'. discriminate.
     + destruct P as (Pa & Pb). split.
       * destruct qa as [s d tg v ch|m]; [|exact I]. simpl. destruct d; [reflexivity|]. exfalso.
         rewrite (holds_ucmd_of_chan g cid _ H2 ch w Pa Gw) in EHo'. discriminate.
